@@ -136,7 +136,11 @@ def run_program(nwatches, regs, scripts, nevents):
         counts_before = {h.name: len(h.got) for h in hs}
         obs.event_queue.put((ev, watches[w]))
         registry["current_watch"] = w
-        obs.dispatch_events(obs.event_queue)
+        try:
+            obs.dispatch_events(obs.event_queue)
+        except Exception as e:  # noqa: BLE001  (the observer thread would die here: nothing is delivered any more)
+            problems.append(f"event e{n} of watch {w}: dispatch_events raised {type(e).__name__}: {e} - the observer thread ends, every later event is lost")
+            break
         for h in hs:
             new = h.got[counts_before[h.name]:]
             if len(new) > 1:
@@ -183,7 +187,11 @@ def run_plain(nwatches, regs, nevents):
         for h in model[w]:
             sent[h].append(ev.src_path)
     while obs.event_queue.qsize():
-        obs.dispatch_events(obs.event_queue)
+        try:
+            obs.dispatch_events(obs.event_queue)
+        except Exception as e:  # noqa: BLE001
+            problems.append(f"dispatch_events raised {type(e).__name__}: {e} - the observer thread ends, every later event is lost")
+            break
     for h in hs:
         if got[h] != sent[h]:
             problems.append(f"handler {h}: got {got[h]} expected {sent[h]}")
@@ -192,9 +200,45 @@ def run_plain(nwatches, regs, nevents):
     return problems
 
 
+def two_observers():
+    """two observers in one process, each with a handler on an equal watch: what A's emitter queues is dispatched by A, to
+    A's handler, and never reaches B's handler"""
+    problems = []
+    got = {"A": [], "B": []}
+
+    class R(FileSystemEventHandler):
+        def __init__(self, tag):
+            self.tag = tag
+
+        def dispatch(self, event):
+            got[self.tag].append(event.src_path)
+    A, B = BaseObserver(NullEmitter, timeout=0.05), BaseObserver(NullEmitter, timeout=0.05)
+    wa, wb = A.schedule(R("A"), "/w0"), B.schedule(R("B"), "/w0")
+    ea = next(iter(A.emitters))
+    for n in range(3):
+        ea.queue_event(FileCreatedEvent(f"/w0/e{n}"))
+        for name, o in (("B", B), ("A", A)):     # B's dispatcher runs first
+            if o.event_queue.qsize():
+                try:
+                    o.dispatch_events(o.event_queue)
+                except Exception as e:  # noqa: BLE001
+                    problems.append(f"dispatch_events of observer {name} raised {type(e).__name__}: {e}")
+    want = [f"/w0/e{n}" for n in range(3)]
+    if got["B"]:
+        problems.append(f"observer B's handler received {got['B']}: events queued by observer A's emitter for A's watch (B's handler is not registered there)")
+    if got["A"] != want:
+        problems.append(f"observer A's handler received {got['A']} of the events {want} its own emitter queued")
+    A.unschedule_all()
+    B.unschedule_all()
+    return problems
+
+
 def main():
     if REPLAY is not None:
         c = REPLAY
+        if c["kind"] == "two-observers":
+            pr = two_observers()
+            replay_result(bool(pr), pr[:3])
         if c["kind"] == "queue":
             import c16_battery
             pr = c16_battery.scen_late_bookkeeping(c["variant"])
@@ -229,6 +273,10 @@ def main():
         pr = run_program(nw, regs, scripts, 4)
         if pr:
             bat.fail("C04.reentrant-dispatch", pr[0], {"kind": "prog", "nw": nw, "regs": [list(r) for r in regs], "scripts": {str(k): [list(a) for a in v] for k, v in scripts.items()}, "nev": 4, "problems": pr[:3]}, "BaseObserver.dispatch_events")
+    bat.case("two-observers")
+    pr = two_observers()
+    if pr:
+        bat.fail("C04.two-observers", pr[0], {"kind": "two-observers", "problems": pr[:3]}, "EventDispatcher.__init__")
     # ordering / no-loss of the observer's event queue is C16's contract: its interleavings are run here as well
     import c16_battery
     for v in ("consumer", "producer"):
